@@ -2,7 +2,7 @@
 use cosmwasm_std::entry_point;
 use cosmwasm_std::{
     coins, from_json, to_json_binary, Addr, BankMsg, Binary, Deps, DepsMut, Env, MessageInfo,
-    Order, Response, StdResult, Storage, SubMsg, Uint128, WasmMsg,
+    Order, Response, StdError, StdResult, Storage, SubMsg, Uint128, WasmMsg,
 };
 
 use cw2::set_contract_version;
@@ -203,7 +203,7 @@ fn update_membership(
     height: u64,
 ) -> StdResult<Vec<SubMsg>> {
     // update their membership weight
-    let new = calc_weight(new_stake, cfg);
+    let new = calc_weight(new_stake, cfg)?;
     let old = MEMBERS.may_load(storage, &sender)?;
 
     // short-circuit if no change
@@ -230,12 +230,15 @@ fn update_membership(
     })
 }
 
-fn calc_weight(stake: Uint128, cfg: &Config) -> Option<u64> {
+fn calc_weight(stake: Uint128, cfg: &Config) -> StdResult<Option<u64>> {
     if stake < cfg.min_bond {
-        None
+        Ok(None)
     } else {
         let w = stake.u128() / (cfg.tokens_per_weight.u128());
-        Some(w as u64)
+        // a weight that does not fit into u64 must not silently wrap around
+        let w = u64::try_from(w)
+            .map_err(|_| StdError::generic_err("Stake exceeds the maximum weight"))?;
+        Ok(Some(w))
     }
 }
 
